@@ -2289,6 +2289,13 @@ class Fouriergate(Gate):
     def __init__(self):
         super().__init__([np.pi / 2])
 
+    def merge(self, other):
+        # The Fourier gate has no free parameter (its rotation angle is fixed), so the generic
+        # "add the first parameters" rule does not apply: two Fourier gates only merge if they cancel.
+        if isinstance(other, Fouriergate) and self.dagger != other.dagger:
+            return None
+        raise MergeFailure("Fourier gates can only be merged with their inverse.")
+
     def _decompose(self, reg, **kwargs):
         # into a rotation
         theta = np.pi / 2
